@@ -12,7 +12,7 @@ for m in json.load(open('mutants/mutants.json')):
     if flt in m['name']: print(m['name'], m['patch'], ' '.join(m['expect']))
 for meta in sorted(glob.glob('seeded/*/meta.json')):
     m=json.load(open(meta)); d=os.path.dirname(meta)
-    if flt in m['name']: print(m['name'], d+'/patch.diff', ' '.join(m.get('expect_checks',[m['breaks_property']])))
+    if flt in m['name'] and not m.get('out_of_scope_reason'): print(m['name'], d+'/patch.diff', ' '.join(m.get('expect_checks',[m['breaks_property']])))
 PY
 mkdir -p work
 cat /tmp/selftest.$$.list | xargs -P 4 -L 1 bash -c 'name=$0; patch=$1; shift; out=$(tools/mutant_run.sh $patch '"$TIER"' "$@" 2>&1 | tr "\n" ";"); echo "$name | $out"' | tee work/selftest-$TIER.txt
